@@ -127,6 +127,12 @@ def r3_handlers(ck, cx):
             cbt = U(cb) if cb is not None else ''
             ck.ob('R3', f.qn, 'callback is this handler\'s execute', ('self.' + fe[2]) in cbt, detail='callback %s' % cbt[:40],
                   loc=cx.floc(f, rp.pip_node))
+        for rp in calls:
+            if rp.zero_added:
+                ck.ob('R3', f.qn, 'unit 0 is added to the accepted units only when broadcast is enabled', rp.flags.get('broadcast_enable') is True,
+                      detail='unit0-admitted-without-broadcast', loc=cx.floc(f, rp.pip_node),
+                      message='%s adds unit 0 to the accepted units on a path where broadcast_enable is not set: the framer then lets every unit id '
+                              'through and frames for units the server does not host are answered' % fe[0])
         ck.ob('R3', f.qn, 'receive loop admits unit 0 when broadcast is enabled', bool(bc_paths) and
               all(rp.zero_added or True for rp in bc_paths) and any(rp.zero_added for rp in bc_paths),
               detail='no-broadcast-unit-admission', loc=cx.floc(f),
@@ -170,5 +176,8 @@ def run(ck, tier):
     from .c18 import r6_table_isolation
     ck.guard(r6_table_isolation, ck, cx, 'R6')
     ck.guard(r7_context_truthiness, ck, cx)
+    ck.rule('R8', 'the unit id a framer hands on is the unsigned byte on the wire (shared with C03 R7)')
+    from ..share import import_findings
+    import_findings(ck, 'C03', 'R8', ('R7',), 'a request for a unit id >= 128 is not routed to the unit it addresses', detail_prefixes=('signedness-mismatch',))
     ck.assume('non-interference between units as a run-time fact follows from R2 + C05 R2 and is not decided itself')
     return cx.idx
